@@ -9,6 +9,7 @@ import (
 	"golang.org/x/crypto/chacha20"
 	"pgregory.net/rapid"
 
+	"verif/harness/internal/clibaead"
 	"verif/harness/internal/ev"
 	"verif/harness/internal/gen"
 	"verif/harness/internal/refaead"
@@ -85,6 +86,7 @@ func TestC03(t *testing.T) {
 		t.Fatal(err)
 	}
 	c.Variant("chacha20 generic (amd64 has no assembly for this package)")
+	sodium := sodiumOracle(c, "crypto_stream_chacha20_ietf_xor_ic / crypto_stream_xchacha20_xor_ic")
 	rapid.Check(t, func(rt *rapid.T) {
 		nonceLen := rapid.SampledFrom([]int{12, 24}).Draw(rt, "nonceLen")
 		key, _ := genKey(rt, "key")
@@ -214,6 +216,14 @@ func TestC03(t *testing.T) {
 				fail("XORKeyStream(%d bytes) at stream position %d panicked: %v", n, pos, perr)
 			}
 			want := refaead.XOR(key, nonce, pos, orig)
+			if sodium && n > 0 {
+				lead := int(pos % 64)
+				sw, err := clibaead.StreamXOR(key, nonce, uint32(pos/64), append(make([]byte, lead), orig...))
+				if err != nil || !bytes.Equal(sw[lead:], want) {
+					c.Inconclusive(fmt.Sprintf("oracles disagree: libsodium vs RFC 8439 key stream for key=%x nonce=%x pos=%d n=%d (err=%v)", key, nonce, pos, n, err))
+					rt.Fatalf("VF-INCONCLUSIVE: property=C03 libsodium and the reference disagree")
+				}
+			}
 			if !bytes.Equal(dst[:n], want) {
 				j := 0
 				for dst[j] == want[j] {
